@@ -90,8 +90,8 @@ BadBuilder(e) ==
         \* many states: the numbering of the states reachable from the initial one is FORCED (propagate from the
         \* initial state along the specified successors); only the unreachable rest is searched (if it is small)
         init == e.calls[1].s
-        RECURSIVE Force(_, _)
-        Force(m, fr) ==
+        RECURSIVE ForceNum(_, _)
+        ForceNum(m, fr) ==
           IF fr = {} THEN <<TRUE, m>>
           ELSE LET s == CHOOSE x \in fr : TRUE
                    pairs == {<<SpecDelta(st.trans[s], st.dflt[s], a.reps[j]), a.delta[m[s]][j]>> : j \in 1..Len(a.reps)}
@@ -100,9 +100,9 @@ BadBuilder(e) ==
                    new   == {p \in pairs : p[1] \notin DOMAIN m}
                    m2    == [x \in DOMAIN m \cup {p[1] : p \in new} |->
                                IF x \in DOMAIN m THEN m[x] ELSE (CHOOSE p \in new : p[1] = x)[2]]
-               IN IF clash THEN <<FALSE, m>> ELSE Force(m2, (fr \ {s}) \cup {p[1] : p \in new})
+               IN IF clash THEN <<FALSE, m>> ELSE ForceNum(m2, (fr \ {s}) \cup {p[1] : p \in new})
         ExplainsForced ==
-          LET r == Force([x \in {init} |-> a.init], {init})
+          LET r == ForceNum([x \in {init} |-> a.init], {init})
               m == r[2]
               D == DOMAIN m
               restS == S \ D
